@@ -6,11 +6,13 @@ fn r(h: &'static str, bound: &str, cases: u64, cex: Option<String>) -> Report { 
 // ------------------------------------------------------------------ C19
 /// resolving make_relative_path(base, target) against the directory of base gives target
 pub fn relpath() -> Report {
-    let bound = "all pairs of '/'-separated absolute or relative paths of 1..4 components over names {a,b,c} (plus '\\\\'-separated variants of the base)";
+    let depth = if crate::deep() { 5 } else { 4 };
+    let bound_s = format!("all pairs of '/'-separated absolute or relative paths of 1..{depth} components over names {{a,b,c}} (plus '\\\\'-separated variants of the base)");
+    let bound = bound_s.as_str();
     let mut cases = 0u64;
     let names = ["a", "b", "c"];
     let mut paths: Vec<Vec<&str>> = vec![]; let mut layer: Vec<Vec<&str>> = vec![vec![]];
-    for _ in 0..4 { let mut next = vec![]; for l in &layer { for n in names { let mut t = l.clone(); t.push(n); next.push(t); } } paths.extend(next.iter().cloned()); layer = next; }
+    for _ in 0..depth { let mut next = vec![]; for l in &layer { for n in names { let mut t = l.clone(); t.push(n); next.push(t); } } paths.extend(next.iter().cloned()); layer = next; }
     for abs in [true, false] { for sep in ["/", "\\"] { for b in &paths { for t in &paths {
         cases += 1;
         let base = format!("{}{}", if abs { sep } else { "" }, b.join(sep));
@@ -115,11 +117,13 @@ fn ref_slice(line: &str, col: u64, span: u64) -> Option<&str> {
     if idx < col + span { None } else { line.get(off..end) }
 }
 pub fn sourceview() -> Report {
-    let bound = "all texts of length <= 5 over {a, LF, CR, e-acute, U+1F600}; 6 access orders per text (single late line first, count first, missing line first, iterator, reverse, forward); all (col, span) in 0..=len+1 per line plus extreme values";
+    let maxlen = if crate::deep() { 7 } else { 5 };
+    let bound_s = format!("all texts of length <= {maxlen} over {{a, LF, CR, e-acute, U+1F600}}; 6 access orders per text (single late line first, count first, missing line first, iterator, reverse, forward); all (col, span) in 0..=len+1 per line plus extreme values");
+    let bound = bound_s.as_str();
     let mut cases = 0u64;
     let alpha = ['a', '\n', '\r', 'é', '😀'];
     let mut texts: Vec<String> = vec![String::new()]; let mut layer: Vec<String> = vec![String::new()];
-    for _ in 0..5 { let mut next = vec![]; for l in &layer { for c in alpha { let mut t = l.clone(); t.push(c); next.push(t); } } texts.extend(next.iter().cloned()); layer = next; }
+    for _ in 0..maxlen { let mut next = vec![]; for l in &layer { for c in alpha { let mut t = l.clone(); t.push(c); next.push(t); } } texts.extend(next.iter().cloned()); layer = next; }
     for t in &texts {
         let want = ref_lines(t); let n = want.len() as u32;
         let orders: Vec<Vec<u32>> = vec![(0..=n).rev().collect(), (0..=n).collect(), vec![n + 3, 0, n.saturating_sub(1)], vec![n.saturating_sub(1), 0, n]];
